@@ -62,6 +62,29 @@ def find_opaque(w):
     return None
 
 
+# value restrictions the decoders enforce beyond the wire shape (R03.2 decides the guards themselves)
+RESTRICTED = (('core::num::nonzero::NonZero', 'non-zero integers'), ('alloc::string::String', 'valid UTF-8'), ('str', 'valid UTF-8'),
+              ('core::time::Duration', 'sub-second nanoseconds below 10^9'), ('bitvec::', 'bit sequences of at most 2^29-1 bits'),
+              ('codec::OptionBool', 'the three optional-bool bytes'))
+
+
+def restriction(facts, t, depth=0):
+    """the value restriction of the head type of `t` (through references / boxes / Cow), or None"""
+    if depth > 6 or not isinstance(t, tuple):
+        return None
+    t = T.strip_refs(t)
+    if t[0] == 'adt':
+        p = t[1]
+        for pre, what in RESTRICTED:
+            if p == pre or p.startswith(pre):
+                return what
+        if p in ('alloc::boxed::Box', 'alloc::rc::Rc', 'alloc::sync::Arc', 'alloc::borrow::Cow', 'compact::Compact') and t[2]:
+            return restriction(facts, t[2][0] if t[2][0][0] != 'lifetime' else (t[2][1] if len(t[2]) > 1 else None), depth + 1)
+    if t[0] == 'prim' and t[1] == 'str':
+        return 'valid UTF-8'
+    return None
+
+
 def check_encode_like(out, facts, rule='R16.1'):
     cfg = facts.cfg
     S = shape.Shapes(facts)
@@ -90,6 +113,14 @@ def check_encode_like(out, facts, rule='R16.1'):
         ca, cb = canon(wa, uf), canon(wb, uf)
         out.ob(rule, key, ca == cb, 'declared alike but W(A) = %s and W(B) = %s' % (shape.wshow(wa), shape.wshow(wb)), i['loc'],
                sample={'A': i['self'], 'B': i['trait_args'][0], 'W(A)': shape.wshow(wa), 'W(B)': shape.wshow(wb)})
+        # same shape is not enough when B's decoder rejects values: every value of A must be acceptable to B
+        ra, rb_ = restriction(facts, a), restriction(facts, b)
+        if ca == cb and rb_ and ra != rb_:
+            out.ob(rule, key + '/accepted-by-B', False,
+                   'W(A) == W(B) but the decoder of B only accepts %s, which values of A are not known to satisfy (A: %s): bytes of some '
+                   'A do not decode as B' % (rb_, ra or 'unrestricted'), i['loc'])
+        elif ca == cb and rb_:
+            out.ob(rule, key + '/accepted-by-B', True, '', i['loc'])
     out.count('reflexive EncodeLike impls [%s]' % cfg, n_refl)
     return n_cmp, n_refl
 
@@ -108,6 +139,6 @@ def run(cx, out):
         c01.check_type_info(out, facts)
     # premise: "the bytes A encodes to" is well defined: all encoding entry points of an impl agree (C07 R07.1)
     from . import shared
-    shared.premises(cx, out, {'c07': {'R07.1'}})
+    shared.premises(cx, out, {'c07': {'R07.1', 'R07.3'}, 'c01': {'R01.1'}})
     from . import positive
     positive.check(cx, out, 'C16')
